@@ -57,6 +57,7 @@ def stepClos (r : Recv) (ts : List String) : Recv × String :=
   | .stk s, ["mpol", n] => (.stk (s.setMaf (polArg n)), "-")
   | .stk s, ["fold", b] => (.stk (s.setState Gen.flag_cfold (some (b == "1"))), "-")
   | .stk s, ["clrerr"] => (.stk { s with cfg := { s.cfg with err := none } }, "-")
+  | .stk s, ["ro", b] => (.stk (s.setState Gen.flag_ronly (some (b == "1"))), "-")
   | .stk s, "marshal" :: rest =>
     (match (parseVal rest).1 with
      | .anys args => let r := s.MarshalP closuresK interp args; (.stk r.1, errTokC r.2)
@@ -81,6 +82,12 @@ def runClosures (payload : String) : String × String × String :=
     | none => ("BADCASE", "BADCASE", "")
     | some r0 =>
       let (_, outs) := (ops.splitOn " ; ").foldl (fun (acc : Recv × List String) o =>
+          if o == "free" then
+            -- Free: the handle becomes zero unless the instance is read-only (then an error and nothing changes)
+            (match acc.1 with
+             | .stk s => if s.readOnly then (acc.1, "free err Z0 I1" :: acc.2) else (acc.1, "free ok Z1 I0" :: acc.2)
+             | r => (r, "BADOP" :: acc.2))
+          else
           let (r', ret) := stepClos acc.1 (words o)
           (r', s!"{ret} {obsClos v r'}" :: acc.2)) (r0, [s!"init {obsClos v r0}"])
       let line := " ; ".intercalate outs.reverse
